@@ -20,11 +20,22 @@ TIMEREV = ["Periodogram", "pcorrelogram", "pyule", "pburg", "pmodcovar", "MT-uni
 REAL_FOLD = ["pburg", "pyule", "pcovar", "pmodcovar", "parma", "pma", "pminvar", "MT-unity", "MT-eigen", "MT-adapt"]
 
 
+_CFG = {}
+
+
 def _psd(cls, x, nfft):
-    return np.asarray(C.make(cls, x, nfft, 1.0, False).psd)
+    return np.asarray(C.make(cls, x, nfft, 1.0, False, _CFG.get("cfg")).psd)
 
 
 def oracle_shift(p):
+    _CFG["cfg"] = p.get("cfg")
+    try:
+        return _oracle_shift(p)
+    finally:
+        _CFG["cfg"] = None
+
+
+def _oracle_shift(p):
     cls, x, nfft, m = p["cls"], np.asarray(p["x"]), p["nfft"], p["m"]
     n = np.arange(len(x))
     p0 = _psd(cls, x, nfft)
@@ -48,6 +59,14 @@ def oracle_shift(p):
 
 
 def oracle_real(p):
+    _CFG["cfg"] = p.get("cfg")
+    try:
+        return _oracle_real(p)
+    finally:
+        _CFG["cfg"] = None
+
+
+def _oracle_real(p):
     cls, xr, nfft = p["cls"], np.asarray(p["x"]), p["nfft"]
     out = []
     tol = 1e-5 if cls in ("pcovar", "pmodcovar", "parma") else 1e-6
@@ -98,7 +117,8 @@ def model_mod(p):
 
 def _key(p):
     x = np.asarray(p["x"])
-    return "%s|%s|%s|%s|%d" % (p.get("cls"), p.get("fn"), p.get("nfft"), p.get("m"), hash(x.tobytes()) & 0xFFFFF)
+    return "%s|%s|%s|%s|%s|%d" % (p.get("cls"), p.get("fn"), p.get("nfft"), p.get("m"), (p.get("cfg") or {}).get("window"),
+                                 hash(x.tobytes()) & 0xFFFFF)
 
 
 def _tags(p):
@@ -125,6 +145,18 @@ def gen(rng, nrng, tier):
                 for m in ms[: (2 if tier == "quick" else 5)]:
                     yield ("shift", {"cls": cls, "x": x, "nfft": nfft, "m": m})
                 yield ("real", {"cls": cls, "x": xr, "nfft": nfft})
+    # every window name through the Fourier classes (the window is part of the estimator's configuration)
+    from spectrum.window import window_names
+    wn = sorted(window_names)
+    xw = nrng.standard_normal(33) + 1j * nrng.standard_normal(33)
+    xwr = nrng.standard_normal(33)
+    for j, name in enumerate(wn):
+        if tier == "quick" and j % 2 == (0 if True else 1) and name not in ("flattop", "tukey", "taylor", "chebwin", "kaiser"):
+            continue
+        for cls in ("Periodogram", "pcorrelogram"):
+            cfg = {"window": name, "lag": 5}
+            yield ("shift", {"cls": cls, "x": xw, "nfft": [64, 75][j % 2], "m": 3, "cfg": cfg})
+            yield ("real", {"cls": cls, "x": xwr, "nfft": [64, 75][j % 2], "cfg": cfg})
     # long complex records (N >= 256) through the correlation-based classes
     NL = 300
     nl = np.arange(NL)
